@@ -649,11 +649,13 @@ impl<'w> PoolSim<'w> {
 			Submit::BadSignature | Submit::Outputless | Submit::OutputlessBadSignature => {
 				if let Some(x) = free.first().cloned() {
 					let t = if *kind == Submit::BadSignature {
-						self.make_spend(&[x], 1, Self::plain_fee(1, 1), None, &mut rng)
+						self.make_spend(&[x.clone()], 1, Self::plain_fee(1, 1), None, &mut rng)
 					} else {
 						FeeFields::new(0, x.value).ok().map(|ff| self.world.wallet.build_tx(&[x.clone()], &[], None, KernelFeatures::Plain { fee: ff }).0)
 					};
-					expect = Some(*kind == Submit::Outputless);
+					// everything is paid as fee: acceptable only if the input covers the minimum fee
+					let pays_enough = x.value >= Self::plain_fee(1, 0).max(Self::plain_fee(1, 1));
+					expect = if *kind == Submit::Outputless { if pays_enough { Some(true) } else { None } } else { Some(false) };
 					t.map(|mut t| {
 						if *kind != Submit::Outputless {
 							let mut raw = [0u8; 64];
@@ -853,6 +855,9 @@ pub fn gen_ops(rng: &mut SimRng, thorough: bool) -> Vec<Op> {
 	// the current size and an under-fee fluff transaction (and a valid one, which evicts) follow
 	let at = (ops.len() / 2 + rng.usize_below(ops.len() / 2 + 1)).min(ops.len());
 	let tail = vec![
+		// a stem transaction that depends on a pooled one, so that the eviction below may take its parent
+		Op::Submit { kind: Submit::Valid, stem: false, r: rng.next_u64() },
+		Op::Submit { kind: Submit::Dependent, stem: true, r: rng.next_u64() },
 		Op::ShrinkCapacity { to: rng.range(0, 1) as usize },
 		Op::Submit { kind: Submit::UnderFee, stem: false, r: rng.next_u64() },
 		Op::Submit { kind: Submit::Valid, stem: false, r: rng.next_u64() },
